@@ -471,7 +471,14 @@ fn gen_case(rng: &mut Rng, n: usize) -> Case {
             for i in 0..rng.below(9) {
                 let v = *rng.pick(&[0u128, 1, 5, 127, 128, 840, 16383, 16384, 113549, 4294967295]);
                 arcs.push(v);
-                text.push(if rng.chance(1, 4) { t(&format!("aq@x{i}({v})")) } else { v.to_string() });
+                // name(number): the number counts; one arc in eight borrows a name that is well known further up the tree
+                text.push(if rng.chance(1, 8) {
+                    format!("{}({v})", rng.pick(&["standard", "identified-organization", "member-body", "recommendation", "iso", "itu-t", "administration"]))
+                } else if rng.chance(1, 4) {
+                    t(&format!("aq@x{i}({v})"))
+                } else {
+                    v.to_string()
+                });
             }
             Case { types: String::new(), ty: "OBJECT IDENTIFIER".into(), val: format!("{{ {} }}", text.join(" ")), expected: AV::Oid(arcs), trailing_zeros_insignificant: false, as_default: false, form: "oid" }
         }
